@@ -291,6 +291,13 @@ def explore(run):
         {"t": "Byte", "v": 255}, {"t": "Double", "v": "nan"}, {"t": "Float", "v": "inf"}, {"t": "Double", "v": "-inf"},
         {"t": "EngineeringUnits", "uri": "http://x?a=1&b=<2>", "unit_id": 5, "display": {"text": "a<b & c", "locale": "en"},
          "description": {"text": "]]>", "locale": "de"}},
+        # the same (NamespaceUri, UnitId) under other names / locales, decoded in the same process (round 8: a per-unit decode cache)
+        {"t": "EngineeringUnits", "uri": "http://x?a=1&b=<2>", "unit_id": 5, "display": {"text": "other name", "locale": "nb"},
+         "description": {"text": "other description", "locale": "en"}},
+        {"t": "EngineeringUnits", "uri": "http://www.opcfoundation.org/UA/units/un/cefact", "unit_id": -1, "display": {"text": "widgets", "locale": "en"},
+         "description": {"text": "custom unit one", "locale": "en"}},
+        {"t": "EngineeringUnits", "uri": "http://www.opcfoundation.org/UA/units/un/cefact", "unit_id": -1, "display": {"text": "gadgets", "locale": "en"},
+         "description": {"text": "custom unit two", "locale": "en"}},
         {"t": "Int64", "v": -2**63}, {"t": "UInt64", "v": 2**64 - 1}, {"t": "String", "v": "<&>\"'"}, {"t": "String", "v": None},
         {"t": "DateTime", "v": "9999-12-31T23:59:59.999999", "tz": "utc"}, {"t": "DateTime", "v": "1000-01-01T00:00:00.000000", "tz": "utc"},
         {"t": "ListOf", "typename": "Int32", "items": []},
